@@ -39,6 +39,34 @@ META = {
    note="memset is CBMC's library model. Behaviour of NASM kernels on a reset manager is outside C contracts. Variant init/reset_ooo_mgrs coverage is added as units exist.",
    technique="CBMC self-composition harness with ghost byte index over the real reset functions",
    design="DESIGN.md §3 C15"),
+ "C08": dict(
+   text="Deductive over all 2^64 CPU feature words and all flag words: on the real family initialisers, auto-init and cpu_feature_adjust, each per-variant init is reached only with its "
+        "IMB_CPUFLAGS_<variant> set inside adjust(flags, cpuid) (callee precondition asserted at every call site), the widest satisfiable variant is chosen, *_OFF flags are honoured, and with "
+        "missing flags or a NULL manager nothing is initialised and no kernel is executed (the self-test precondition).",
+   note="Per-variant inits, self_test and cpuid are modelled (trusted_base). Equality of outputs across NASM variants is not decided.",
+   technique="CBMC call-site precondition checking on the real selection code with symbolic feature/flag words",
+   design="DESIGN.md §3 C08"),
+ "C16": dict(
+   text="Deductive on the real imb_set_pointers_mb_mgr: for every table entry and pair (fully unwound, constant indexes) the manager pointer is base + a fixed offset, 64-aligned, inside "
+        "imb_get_mb_mgr_size(), disjoint from the others, road block stamped, table = struct fields; for an arbitrary byte of the block (ghost index) re-attach writes nothing but pointers/flags/"
+        "features/errno/road blocks, so ring and manager contents survive; reset zeroes everything else.",
+   note="Variant init and cpuid are modelled. Position-independence of lane state written by NASM is not decided.",
+   technique="CBMC assertions with ghost byte index over the real allocator code; complete unwinding of the 41-entry table loops",
+   design="DESIGN.md §3 C16"),
+ "C02": dict(
+   text="On the real SHA one-shot wrappers of every variant (sha_generic instantiations) the FIPS 180-4 framing is verified for every message content over a bounded length range "
+        "that contains every padding threshold: block count, every byte of every padded block (ghost block/byte indexes), 64/128-bit big-endian length field, the algorithm's initial hash "
+        "value, big-endian truncated digest, nothing written past the digest; compression functions are uninterpreted. Bounded in message length (stated), so reported as a bounded stand-in.",
+   note="Compression kernels, HMAC/CMAC/XCBC/ZUC/SNOW3G/KASUMI/Poly1305/CRC managers are NASM and not decided. The multi-buffer SHA manager in C (sha_mb_mgr.h) is not covered yet.",
+   technique="CBMC on the real wrappers with logging models of the NASM one-block kernels; FIPS 180-4 padding oracle written from the standard; loops unwound for the stated bound",
+   category="model_checking", design="DESIGN.md §3 C02"),
+ "C20": dict(
+   text="Deductive over all verdict assignments to all known-answer vectors: in the real self_test.c gating code every vector of every table runs exactly once in table order, the result is 1 iff "
+        "every comparison passed, IMB_FEATURE_SELF_TEST is announced and IMB_FEATURE_SELF_TEST_PASS is set iff the result is 1 regardless of its previous value, no other feature bit changes, "
+        "and the callback stream is START(group, vector) followed by FAIL for exactly the failing vectors / PASS for the others; the public inits report IMB_ERR_SELFTEST iff it failed (c08 units).",
+   note="Per-vector KAT functions are replaced by arbitrary-verdict models; that a corrupted kernel changes its output is a fact about NASM kernels.",
+   technique="CBMC on the real gating code with verdict models substituted by goto-instrument --replace-calls; vector tables constant so loops are completely unwound",
+   design="DESIGN.md §3 C20"),
 }
 NOT_APPLICABLE = {
  "C18": "callee-saved registers, RSP, DF and MXCSR are not C-visible state; no CBMC contract can mention them and the functions at issue are hand-written NASM (DESIGN.md §3 C18)",
